@@ -17,7 +17,9 @@ fn inum(x: i64) -> Value {
     Value::Number(serde_yaml::Number::from(x))
 }
 
-const NAMES: &[&str] = &["a", "b", "c", "k1", "x", "y", "0", "init", "optional", "size", "values", "min", "type x", "typeDefault", "typeDef", "typeDefx", "valueType", "q\"uote", "semi;colon", "sp ace", "\u{e9}\u{1F600}"];
+const NAMES: &[&str] = &["a", "b", "c", "k1", "x", "y", "0", "init", "optional", "size", "values", "min", "type x", "typeDefault", "typeDef", "typeDefx", "valueType", "q\"uote", "semi;colon", "sp ace", "\u{e9}\u{1F600}",
+    // long names of multi-byte characters: a path hint cut at a byte offset lands inside one of them
+    "\u{3bb}\u{3bb}\u{3bb}\u{3bb}\u{3bb}\u{3bb}\u{3bb}\u{3bb}\u{3bb}\u{3bb}\u{3bb}\u{3bb}\u{3bb}x", "\u{e9}\u{e9}\u{e9}\u{e9}\u{e9}\u{e9}\u{e9}\u{e9}\u{e9}\u{e9}\u{e9}\u{e9}\u{e9}\u{e9}\u{e9}\u{e9}\u{e9}\u{e9}\u{e9}\u{e9}", "z\u{540d}\u{524d}\u{540d}\u{524d}\u{540d}\u{524d}\u{540d}\u{524d}\u{540d}\u{524d}"];
 const TYPE_NAMES: &[&str] = &["t1", "t2", "foo", "my type"];
 
 struct Gen<'a> {
